@@ -294,17 +294,26 @@ impl QueryRouter {
 
         match command {
             Command::SetShardingKey => {
-                // TODO: some error handling here
-                value = self
-                    .set_sharding_key(value.parse::<i64>().unwrap())
-                    .unwrap()
-                    .to_string();
+                // A key that does not fit a bigint is not a sharding key: let the server
+                // deal with the statement instead of panicking.
+                let sharding_key = match value.parse::<i64>() {
+                    Ok(sharding_key) => sharding_key,
+                    Err(_) => return None,
+                };
+
+                value = match self.set_sharding_key(sharding_key) {
+                    Some(shard) => shard.to_string(),
+                    None => return None,
+                };
             }
 
             Command::SetShard => {
                 self.active_shard = match value.to_ascii_uppercase().as_ref() {
                     "ANY" => Some(rand::random::<usize>() % self.pool_settings.shards),
-                    _ => Some(value.parse::<usize>().unwrap()),
+                    _ => match value.parse::<usize>() {
+                        Ok(shard) => Some(shard),
+                        Err(_) => return None,
+                    },
                 };
             }
 
